@@ -453,3 +453,31 @@ def cond_of(row, text: str):
     t = text.replace(" ", "")
     hit = [o for c, o in row["conds"] if c.replace(" ", "") == t]
     return hit[-1] if hit else None
+
+
+def instance_fact(row, subject: str, cls: str):
+    """What the path knows about `isinstance(subject, cls)`: 'T', 'F', 'MAYBE' (true for a tuple naming cls among others) or None (never tested).
+    Reads `isinstance(s, C)`, `isinstance(s, (A, B))`, `type(s) is C` and their negations, on the resolved test texts."""
+    fact = None
+    for txt, out in row["conds"]:
+        try:
+            e = ast.parse(txt, mode="eval").body
+        except SyntaxError:
+            continue
+        neg = False
+        while isinstance(e, ast.UnaryOp) and isinstance(e.op, ast.Not):
+            e, neg = e.operand, not neg
+        holds = (out == "T") != neg
+        classes = None
+        if isinstance(e, ast.Call) and isinstance(e.func, ast.Name) and e.func.id == "isinstance" and len(e.args) == 2 and ast.unparse(e.args[0]) == subject:
+            c = e.args[1]
+            classes = [ast.unparse(x) for x in c.elts] if isinstance(c, ast.Tuple) else [ast.unparse(c)]
+        if classes is None or cls not in classes:
+            continue
+        if not holds:
+            fact = "F"
+        elif len(classes) == 1:
+            fact = "T"
+        elif fact is None:
+            fact = "MAYBE"
+    return fact
